@@ -139,4 +139,15 @@ PROPS = {
         'rule': "one evaluation = one conversion, read-back or render; a cell = (type, by-value/by-reference) for round trips and (bad key kind, top/nested) for refusals",
         'must_observe': ['roundtrips_ok', 'print_comparisons', 'unrepresentable_keys_refused'],
     },
+    'C18': {
+        'level': 'fault_enumeration',
+        'technique': 'channel differential + writer fault enumeration (every write call, byte offsets, 4 failure kinds, short writes) + purity digest + concurrent-vs-sequential comparison on a shared instance; Miri and ThreadSanitizer legs in the thorough tier',
+        'claim': 'For generated multi-template programs (inheritance with super(), includes, components with bodies, loops, captures, both write sinks, autoescape on) every render/render_block/render_component/render_str result is compared with the bytes '
+                 'its _to variant writes; a counting writer measures the W write calls and N bytes of each successful render and a failing writer is then injected at every call index (up to 160) and at byte offsets 0, 1, N/2, N-1 and every 7th, '
+                 'with kinds Other/WriteZero/Interrupted-then-error/BrokenPipe and 1-3 byte short writes: the result must be an Io error, the accepted bytes a prefix, no panic. The hook digest of the engine and the context are compared before/after; '
+                 'one program in four is rendered from 2-16 threads on a fresh shared instance (random job orders, start barrier) and compared byte for byte with the sequential reference.',
+        'note': 'Send+Sync of Tera, Context, Value, Key, Kwargs, Error, Number is a compile-time assertion in the harness (a regression is a build failure attributed to this check); data races proper are the business of the TSan/Miri legs, the quick tier only compares results',
+        'rule': "one evaluation = one render or one injected failure point; a cell = (render variant, call/byte failure site, failure kind, short/full writes), (variant, ok/err) for the channel differential and the thread count for concurrency",
+        'must_observe': ['channel_pairs_compared', 'failure_points_injected', 'purity_checks', 'concurrent_renders_compared'],
+    },
 }
